@@ -6,6 +6,12 @@ pub mod ledger;
 pub mod menu;
 pub mod types;
 
+/// A user type whose path ends like a std one (`vtypes::string::String<N>`).
+pub mod string {
+    #[derive(Clone, Copy, Debug, PartialEq, Eq)]
+    pub struct String<const N: usize>(pub [u8; N]);
+}
+
 pub use ledger::*;
 pub use menu::*;
 pub use types::*;
@@ -19,6 +25,10 @@ pub trait FieldType: Sized + 'static {
     fn expect(seed: u64) -> u64;
     /// Changes the value in place (no new ledger identity) so that `digest() == expect(seed)`.
     fn mutate(&mut self, seed: u64);
+    /// Whether JSON can carry the current value (not the case of non-finite floats).
+    fn json_safe(&self) -> bool {
+        true
+    }
     /// Ledger identities of the tracked token values this value owns.
     fn tok_ids(&self) -> Vec<u64> {
         Vec::new()
